@@ -17,10 +17,16 @@ class Prims:
 
     def call(self, e, name, argv, kw, st, node):
         self.used.add(name)
+        n0 = len(st.pc)
         r = self.fns[name](e, st, node, *argv, **kw)
         if hasattr(r, '__next__'):
             yield from r
         else:
+            if len(st.pc) > n0:        # facts assumed from the primitive's contract get a name (usable in local proofs)
+                k, key = 1, 'prim:' + name
+                while (key if k == 1 else '%s#%d' % (key, k)) in st.facts:
+                    k += 1
+                st.facts[key if k == 1 else '%s#%d' % (key, k)] = z3.And(*st.pc[n0:])
             yield st, r
 
     def method(self, e, name, recv, argv, kw, st, node):
@@ -98,6 +104,16 @@ def qrange(e, a, f):
 
 
 # ------------------------------------------------------------------ builtins
+@prim('np.ndim')
+def _ndim(e, st, node, x):
+    v = e.deref(st, x)
+    if isinstance(v, Arr):
+        return v.ndim
+    if is_sym(to_z3(v)) or isinstance(v, (int, float)):
+        return 0
+    raise Unsupported('np.ndim of %r' % (v,))
+
+
 @prim('len')
 def _len(e, st, node, x):
     v = e.deref(st, x)
@@ -197,6 +213,11 @@ def _list(e, st, node, x=None):
 
 @prim('type')
 def _type(e, st, node, x):
+    a = e.deref(st, x)
+    if isinstance(a, Arr):
+        kt = KindTag(a.kind)
+        kt.cls = 'list' if a.meta.get('list') else 'ndarray'
+        return kt
     v = to_z3(x)
     if is_sym(v):
         return KindTag('int' if z3.is_int(v) else 'real' if z3.is_real(v) else 'bool')
@@ -215,7 +236,7 @@ def _isinstance(e, st, node, x, cls):
     def collect(c):
         if isinstance(c, Tup):
             for y in c.items: collect(y)
-        elif isinstance(c, Func): names.append(c.name.split('.')[-1])
+        elif isinstance(c, Func): names.append(c.name.split('.')[-1].replace('method:', ''))
         elif isinstance(c, KindTag): names.append('kind:' + c.kind)
     collect(cls)
     zv = to_z3(v) if not isinstance(v, (Arr, Tup, RecV, Str, NoneV, MaskedSel, Opaque, Func, Metric)) else None
@@ -284,6 +305,11 @@ def _sum(e, st, node, x, axis=None):
     a = e.deref(st, x)
     if isinstance(a, Arr):
         return _arr_sum(e, st, node, a, axis)
+    if isinstance(a, MaskedSel) and a.arr.ndim == 1:
+        # sum of the selected cells: a ghost function of (array, mask, length)
+        k = a.arr.kind if a.arr.kind != 'bool' else 'int'
+        f = z3.Function('MASKSUM_%s' % k, a.arr.term.sort(), a.mask.term.sort(), z3.IntSort(), sort_of(k))
+        return f(a.arr.term, a.mask.term, a.arr.shape[0])
     raise Unsupported('sum of %r' % (a,))
 
 
@@ -293,8 +319,16 @@ def _arr_sum(e, st, node, a, axis=None):
     k = a.kind if a.kind != 'bool' else 'int'
     if axis is None or isinstance(axis, NoneV):
         f = z3.Function('SUM%d_%s' % (a.ndim, k), a.term.sort(), *[z3.IntSort()] * a.ndim, sort_of(k))
-        return f(a.term, *a.shape)
+        s = f(a.term, *a.shape)
+        if a.kind == 'bool' and a.ndim == 1:
+            # counting: 0 <= count <= n, and count > 0 exactly when some cell is true (witness w)
+            w, i = e.fresh('cntw', 'int'), e.L.var('q')
+            st.pc += [s >= 0, s <= a.shape[0], z3.Implies(s > 0, z3.And(w >= 0, w < a.shape[0], a[w])),
+                      z3.ForAll([i], z3.Implies(z3.And(i >= 0, i < a.shape[0], a[i]), s > 0))]
+        return s
     ax = axis if isinstance(axis, int) else to_z3(axis).as_long()
+    if ax < 0:
+        ax += a.ndim
     if a.ndim == 2:
         f = z3.Function('AXSUM%d_%s' % (ax, k), a.term.sort(), z3.IntSort(), z3.IntSort(), z3.IntSort(), sort_of(k))
         n_out = a.shape[1 - ax]
@@ -333,14 +367,84 @@ def _alloc_like(e, st, node, x, fill=None, dtype=None):
     return const_arr(e, st, a.shape, kind, e.num(val, kind))
 
 
+def alen_term(e, st, lo, hi, step):
+    """number of elements of range(lo, hi, step), step >= 1 (facts added to the path condition)"""
+    lo, hi, step = to_z3(lo), to_z3(hi), to_z3(step)
+    if z3.is_int_value(step) and step.as_long() == 1:
+        return z3.If(hi > lo, hi - lo, z3.IntVal(0))
+    m = z3.Function('ALEN', z3.IntSort(), z3.IntSort(), z3.IntSort(), z3.IntSort())(lo, hi, step)
+    st.pc += [m >= 0, z3.Implies(hi <= lo, m == 0),
+              z3.Implies(hi > lo, z3.And(m >= 1, e.nl_mul(m - 1, step) < hi - lo, hi - lo <= e.nl_mul(m, step)))]
+    return m
+
+
 @prim('np.arange')
-def _arange(e, st, node, n, hi=None):
+def _arange(e, st, node, n, hi=None, step=None):
     if hi is None:
         a = e.lam(lambda i: i, (to_z3(n),), 'int')
         a.meta = {'arange': True}
         return e.new_obj(st, a)
     lo, hi = to_z3(n), to_z3(hi)
-    return e.new_obj(st, e.lam(lambda i: lo + i, (z3.If(hi > lo, hi - lo, 0),), 'int'))
+    if step is None:
+        a = e.lam(lambda i: lo + i, (z3.If(hi > lo, hi - lo, 0),), 'int')
+        a.meta = {'arange_of': (lo, hi, z3.IntVal(1), a.shape[0])}
+        return e.new_obj(st, a)
+    sp = to_z3(step)
+    e.emit(e.site('arange-step-positive', node), st, sp >= 1)
+    m = alen_term(e, st, lo, hi, sp)
+    one = z3.is_int_value(sp) and sp.as_long() == 1
+    a = e.lam(lambda i: lo + (i if one else e.nl_mul(i, sp)), (m,), 'int')
+    a.meta = {'arange_of': (lo, hi, sp, m)}
+    return e.new_obj(st, a)
+
+
+@prim('np.maximum', 'np.minimum')
+def _maxmin(e, st, node, x, y):
+    big = node.func.attr == 'maximum'
+    X, Y = e.deref(st, x), e.deref(st, y)
+    arrs = [v for v in (X, Y) if isinstance(v, Arr)]
+    if not arrs:
+        a, b = to_z3(X), to_z3(Y)
+        return z3.If((a >= b) if big else (a <= b), a, b)
+    if len(arrs) == 2:
+        e.emit(e.site('shape', node), st, z3.And(*[s == t for s, t in zip(X.shape, Y.shape)]))
+    shape = arrs[0].shape
+    kinds = [v.kind if isinstance(v, Arr) else ('real' if (isinstance(v, float) or (is_sym(to_z3(v)) and z3.is_real(to_z3(v)))) else 'int') for v in (X, Y)]
+    kind = 'real' if 'real' in kinds else 'int'
+    g = lambda v, ix: e.num(v[tuple(ix)] if isinstance(v, Arr) else to_z3(v), kind)
+    def f(*ix):
+        a, b = g(X, ix), g(Y, ix)
+        return z3.If((a >= b) if big else (a <= b), a, b)
+    return e.new_obj(st, e.lam(f, shape, kind))
+
+
+@prim('itertools.repeat')
+def _repeat(e, st, node, x, n):
+    v = to_z3(x)
+    kind = 'real' if z3.is_real(v) else 'int'
+    return e.new_obj(st, Arr(z3.K(z3.IntSort(), v), (to_z3(n),), kind, meta={'list': True}))
+
+
+@prim('itertools.product')
+def _product(e, st, node, a, b):
+    return Tup([Opaque('product'), a, b])
+
+
+def seq_view(e, st, v):
+    """(length, getter) of a 1-d integer sequence: array / list / range object"""
+    a = e.deref(st, v)
+    if isinstance(a, Arr) and a.ndim == 1:
+        return a.shape[0], (lambda i: a[i])
+    if isinstance(a, Tup) and a.items and isinstance(a.items[0], Opaque) and a.items[0].tag == 'range':
+        xs = [to_z3(x) for x in a.items[1:]]
+        if len(xs) == 1:
+            return z3.If(xs[0] > 0, xs[0], z3.IntVal(0)), (lambda i: i)
+        lo, hi = xs[0], xs[1]
+        sp = xs[2] if len(xs) > 2 else z3.IntVal(1)
+        m = alen_term(e, st, lo, hi, sp)
+        one = z3.is_int_value(sp) and sp.as_long() == 1
+        return m, (lambda i: lo + (i if one else e.nl_mul(i, sp)))
+    raise Unsupported('sequence %r' % (a,))
 
 
 @prim('np.array', 'np.asarray', 'np.ascontiguousarray', 'np.copy')
@@ -354,6 +458,14 @@ def _array(e, st, node, x, dtype=None, copy=None):
         if node.func.attr == 'asarray' and not a.meta.get('list') and isinstance(x, Ref):
             return x       # asarray of an ndarray is the same object
         return e.new_obj(st, Arr(a.term, a.shape, a.kind, a.init, meta))
+    if isinstance(a, Tup) and a.items and isinstance(a.items[0], Opaque) and a.items[0].tag == 'product':
+        # np.array(list(itertools.product(xs, ys))): row p*len(ys)+q is the pair (xs[p], ys[q])   (trusted)
+        (n1, g1), (n2, g2) = seq_view(e, st, a.items[1]), seq_view(e, st, a.items[2])
+        Pm = e.fresh('product', e.arr_sort('int', 2))
+        p_, q_ = e.L.var('q'), e.L.var('q')
+        st.pc.append(z3.ForAll([p_, q_], z3.Implies(z3.And(p_ >= 0, p_ < n1, q_ >= 0, q_ < n2),
+                                                    z3.And(z3.Select(Pm, e.nl_mul(p_, n2) + q_, 0) == g1(p_), z3.Select(Pm, e.nl_mul(p_, n2) + q_, 1) == g2(q_)))))
+        return e.new_obj(st, Arr(Pm, (e.nl_mul(n1, n2), z3.IntVal(2)), 'int'))
     if isinstance(a, Tup) and all(is_sym(to_z3(v)) for v in a.items):
         items = [to_z3(v) for v in a.items]
         kind = 'real' if any(z3.is_real(v) for v in items) else 'int'
@@ -385,6 +497,21 @@ def _argmax(e, st, node, x):
     st.pc.append(z3.ForAll([j], z3.Implies(z3.And(j >= 0, j < a.shape[0]), (a[j] <= a[m]) if is_max else (a[j] >= a[m]))))
     st.pc.append(z3.ForAll([j], z3.Implies(z3.And(j >= 0, j < m), (a[j] < a[m]) if is_max else (a[j] > a[m]))))
     return m
+
+
+@method('argmax', 'argmin')
+def _margmax(e, st, node, recv, axis=None):
+    return _argmax(e, st, node, recv)
+
+
+@prim('copy.copy', 'copy.deepcopy')
+def _copycopy(e, st, node, x):
+    a = e.deref(st, x)
+    if isinstance(a, Arr):
+        return e.new_obj(st, Arr(a.term, a.shape, a.kind, a.init, a.meta))
+    if isinstance(a, (int, float, bool)) or is_sym(a):
+        return a
+    raise Unsupported('copy.copy(%r)' % (a,))
 
 
 @prim('np.max', 'np.amax', 'np.min', 'np.amin')
@@ -436,13 +563,15 @@ def _where(e, st, node, mask, x=None, y=None):
         raise Unsupported('np.where on n-d mask')
     W = e.fresh('where', e.arr_sort('int'))
     cnt = e.fresh('cnt', 'int')
-    rk = z3.Function('rk!%d' % next(e.fresh_n), z3.IntSort(), z3.IntSort())
+    rk = e.fresh_fn('rk', [z3.IntSort()], z3.IntSort())
     j, i = e.L.var('q'), e.L.var('q')
     st.pc += [cnt >= 0, cnt <= m.shape[0],
               z3.ForAll([j], z3.Implies(z3.And(j >= 0, j < cnt), z3.And(W[j] >= 0, W[j] < m.shape[0], m[W[j]]))),
               z3.ForAll([i, j], z3.Implies(z3.And(0 <= i, i < j, j < cnt), W[i] < W[j])),
               z3.ForAll([i], z3.Implies(z3.And(i >= 0, i < m.shape[0], m[i]), z3.And(rk(i) >= 0, rk(i) < cnt, W[rk(i)] == i)))]
-    return Tup([e.new_obj(st, Arr(W, (cnt,), 'int'))])
+    t = Tup([e.new_obj(st, Arr(W, (cnt,), 'int', meta={'distinct': True}))])
+    t.where_mask = m
+    return t
 
 
 @prim('np.digitize')
@@ -465,8 +594,8 @@ def _unique(e, st, node, x):
         raise Unsupported('unique of n-d')
     U = e.fresh('uniq', e.arr_sort(a.kind))
     cnt = e.fresh('ucnt', 'int')
-    pos = z3.Function('upos!%d' % next(e.fresh_n), z3.IntSort(), z3.IntSort())   # witness: where each unique value occurs
-    rk = z3.Function('urk!%d' % next(e.fresh_n), z3.IntSort(), z3.IntSort())     # rank of each element's value
+    pos = e.fresh_fn('upos', [z3.IntSort()], z3.IntSort())   # witness: where each unique value occurs
+    rk = e.fresh_fn('urk', [z3.IntSort()], z3.IntSort())     # rank of each element's value
     i, j = e.L.var('q'), e.L.var('q')
     st.pc += [cnt >= 0, cnt <= a.shape[0], z3.Implies(a.shape[0] > 0, cnt > 0),
               z3.ForAll([i, j], z3.Implies(z3.And(0 <= i, i < j, j < cnt), U[i] < U[j])),
@@ -475,9 +604,16 @@ def _unique(e, st, node, x):
     return e.new_obj(st, Arr(U, (cnt,), a.kind))
 
 
+@prim('np.allclose', 'np.isclose')
+def _allclose(e, st, node, a, b, rtol=None, atol=None):
+    """floating-point closeness: an unconstrained boolean (nothing is assumed about it)"""
+    return e.fresh('close', 'bool')
+
+
 @prim('np.isinf')
 def _isinf(e, st, node, x):
-    return to_z3(x) == INF()
+    v = to_z3(x)
+    return z3.Or(v == INF(), v == -INF())       # +inf and -inf
 
 
 @prim('np.sqrt', 'sqrt')
@@ -497,10 +633,11 @@ def _square(e, st, node, x):
     return e.nl_sq(to_z3(x))
 
 
-@prim('np.log', 'log')
+@prim('np.log', 'log', 'np.log10', 'log10')
 def _log(e, st, node, x):
     A = e.deref(st, x)
-    f = e.L.func('ln', 'real', 'real')
+    nm = node.func.attr if hasattr(node.func, 'attr') else node.func.id
+    f = e.L.func('log10' if nm == 'log10' else 'ln', 'real', 'real')
     if isinstance(A, Arr):
         return e.new_obj(st, e.lam(lambda *ix: f(e.num(A[tuple(ix)], 'real')), A.shape, 'real'))
     return f(e.num(x, 'real'))
@@ -585,6 +722,14 @@ def _append(e, st, node, recv, x):
             if a.meta['base'] is not base and not z3.eq(a.meta['base'].term, base.term):
                 raise Unsupported('list of slices of different arrays')
             st.heap[recv.oid] = Arr((z3.Store(a.term[0], a.shape[0], lo), z3.Store(a.term[1], a.shape[0], n)), (a.shape[0] + 1,), 'slices', None, a.meta)
+            return NONE
+        if a.kind == 'count':
+            st.heap[recv.oid] = Arr(a.term, (a.shape[0] + 1,), 'count', None, a.meta)
+            return NONE
+        if isinstance(v, Arr) and a.kind == 'aranges':
+            if v.meta.get('arange_of') is None:
+                raise Unsupported('append of a general array to a list of aranges')
+            st.heap[recv.oid] = Arr(tuple(z3.Store(c, a.shape[0], t) for c, t in zip(a.term, v.meta['arange_of'])), (a.shape[0] + 1,), 'aranges', None, a.meta)
             return NONE
         if isinstance(v, Tup) and all(is_sym(to_z3(t)) for t in v.items) and (a.meta.get('empty_literal') or a.kind == 'tuple'):
             items = [to_z3(t) for t in v.items]
@@ -698,7 +843,7 @@ def _choice(e, st, node, recv, seq, **kw):
 def _where2d(e, st, node, m):
     R_, C_ = e.fresh('wrows', e.arr_sort('int')), e.fresh('wcols', e.arr_sort('int'))
     cnt = e.fresh('cnt', 'int')
-    rk = z3.Function('rk2!%d' % next(e.fresh_n), z3.IntSort(), z3.IntSort(), z3.IntSort())
+    rk = e.fresh_fn('rk2', [z3.IntSort(), z3.IntSort()], z3.IntSort())
     i, j, k = e.L.var('q'), e.L.var('q'), e.L.var('q')
     st.pc += [cnt >= 0,
               z3.ForAll([k], z3.Implies(z3.And(k >= 0, k < cnt), z3.And(R_[k] >= 0, R_[k] < m.shape[0], C_[k] >= 0, C_[k] < m.shape[1], m[R_[k], C_[k]]))),
@@ -847,3 +992,172 @@ def _reshape2(e, st, node, recv, *shape):
             return e.new_obj(st, Arr(a.term, a.shape, a.kind, a.init, a.meta))      # same shape: identity
         raise Unsupported('2-d reshape to a different shape')
     return _old_reshape(e, st, node, recv, *shape)
+
+
+@prim('np.ix_')
+def _ix(e, st, node, a, b):
+    A, B = e.deref(st, a), e.deref(st, b)
+    t = Tup([a, b])
+    t.ix_grid = (A, B)
+    return t
+
+
+@prim('connected_components', 'scipy.sparse.csgraph.connected_components', 'csgraph.connected_components')
+def _scc(e, st, node, graph, connection=None, directed=None, **kw):
+    """SciPy's strongly connected components (assumed contract): labels in [0, n_components), every label used, and the
+    labelling IS the SCC partition of the positive-entry digraph - the last fact is the ghost predicate SCC_LABELS"""
+    g = e.deref(st, graph)
+    if not (isinstance(g, Arr) and g.ndim == 2) or not (isinstance(connection, Str) and connection.s == 'strong'):
+        raise Unsupported('connected_components form')
+    n = g.shape[0]
+    nc = e.fresh('n_components', 'int')
+    lab = e.fresh('labels', e.arr_sort('int'))
+    rep = e.fresh_fn('rep', [z3.IntSort()], z3.IntSort())
+    q = e.L.var('q')
+    rel = z3.Function('SCC_LABELS', g.term.sort(), z3.IntSort(), lab.sort(), z3.BoolSort())
+    st.pc += [nc >= 0, z3.Implies(n > 0, nc >= 1), z3.ForAll([q], z3.Implies(z3.And(q >= 0, q < n), z3.And(lab[q] >= 0, lab[q] < nc))),
+              z3.ForAll([q], z3.Implies(z3.And(q >= 0, q < nc), z3.And(rep(q) >= 0, rep(q) < n, lab[rep(q)] == q))), rel(g.term, n, lab)]
+    return Tup([nc, e.new_obj(st, Arr(lab, (n,), 'int'))])
+
+
+_old_trimmapping = P.fns['TrimMapping']
+
+
+@prim('TrimMapping')
+def _trimmapping2(e, st, node, pairs=None):
+    p = e.deref(st, pairs)
+    if isinstance(p, Tup) and isinstance(p.items[0], Opaque) and p.items[0].tag == 'zip' and len(p.items) == 3:
+        a, b = e.deref(st, p.items[1]), e.deref(st, p.items[2])
+        if isinstance(a, Arr) and a.ndim == 1:
+            if isinstance(b, Arr):
+                mapped = b
+            elif isinstance(b, Tup) and isinstance(b.items[0], Opaque) and b.items[0].tag == 'range':
+                mapped = e.lam(lambda i: i, (to_z3(b.items[1]),), 'int')
+            else:
+                raise Unsupported('TrimMapping pair list form')
+            return e.new_obj(st, RecV('TrimMapping', {'original': e.new_obj(st, a), 'mapped': e.new_obj(st, mapped)}))
+    return _old_trimmapping(e, st, node, pairs)
+
+
+# ------------------------------------------------------------------ ragged lists (lists of arrays of varying length)
+from .engine import RArr
+
+
+class ConcatR:
+    """np.concatenate(list of 1-d arrays) kept lazily"""
+    def __init__(self, ra_):
+        self.ra = ra_
+
+
+_old_array = P.fns['np.array']
+
+
+@prim('np.array')
+def _array_r(e, st, node, x, dtype=None, copy=None):
+    a = e.deref(st, x)
+    if isinstance(a, RArr):
+        return x              # an object array of per-row arrays: same rows
+    return _old_array(e, st, node, x, dtype=dtype, copy=copy)
+
+
+_old_concat = P.fns['np.concatenate']
+
+
+def concat_blocks(e, st, n, width, cell, kind, tag='cat'):
+    """concatenation of n 1-d blocks: C[PS(c) + t] = block_c[t] for 0 <= t < width(c); PS = prefix sums of the widths (ghost).
+    Trusted facts about prefix sums of non-negative widths (induction): 0 <= PS(c) <= PS(n); every position lies in one block."""
+    PS = e.fresh_fn(tag.upper() + 'PS', [z3.IntSort()], z3.IntSort())
+    BLK = e.fresh_fn(tag.upper() + 'BLK', [z3.IntSort()], z3.IntSort())
+    C = e.fresh(tag, e.arr_sort(kind))
+    c, t = e.L.var('q'), e.L.var('q')
+    st.pc += [PS(0) == 0,
+              z3.ForAll([c], z3.Implies(z3.And(c >= 0, c < n), z3.And(PS(c + 1) == PS(c) + width(c), width(c) >= 0))),
+              z3.ForAll([c, t], z3.Implies(z3.And(c >= 0, c < n, t >= 0, t < width(c)), z3.Select(C, PS(c) + t) == cell(c, t))),
+              z3.ForAll([c], z3.Implies(z3.And(c >= 0, c <= n), z3.And(PS(c) >= 0, PS(c) <= PS(n)))),
+              z3.ForAll([t], z3.Implies(z3.And(t >= 0, t < PS(n)), z3.And(BLK(t) >= 0, BLK(t) < n, PS(BLK(t)) <= t, t < PS(BLK(t) + 1))))]
+    return e.new_obj(st, Arr(C, (PS(n),), kind, meta={'PS': PS, 'BLK': BLK, 'blocks': n}))
+
+
+@prim('np.concatenate')
+def _concat_r(e, st, node, *xs, axis=None, dtype=None):
+    a = e.deref(st, xs[0])
+    if isinstance(a, RArr) and a.tmpl.ndim == 1:
+        if not getattr(e.c, 'concat_full', False):
+            return ConcatR(a)
+        return concat_blocks(e, st, a.n, lambda c: a.row(c).shape[0], lambda c, t: a.row(c)[t], a.kind)
+    if isinstance(a, Arr) and a.kind == 'aranges':
+        lo, hi, sp, m = a.term
+        def cell(c, t):
+            s = z3.simplify(sp[c])
+            return lo[c] + (t if (z3.is_int_value(s) and s.as_long() == 1) else e.nl_mul(t, sp[c]))
+        return concat_blocks(e, st, a.shape[0], lambda c: m[c], cell, 'int', tag='cata')
+    return _old_concat(e, st, node, *xs, axis=axis)
+
+
+_old_max_m = P.methods['max']
+
+
+@method('max')
+def _max_r(e, st, node, recv, axis=None):
+    a = e.deref(st, recv)
+    if isinstance(a, ConcatR):
+        r = a.ra
+        m = e.fresh('max', r.kind)
+        c, i = e.L.var('q'), e.L.var('q')
+        row = r.row(c)
+        wc, wi = e.fresh('wc', 'int'), e.fresh('wi', 'int')
+        e.emit(e.site('nonempty', node), st, z3.Exists([c], z3.And(c >= 0, c < r.n, row.shape[0] > 0)))
+        st.pc.append(z3.ForAll([c, i], z3.Implies(z3.And(c >= 0, c < r.n, i >= 0, i < row.shape[0]), row[i] <= m)))
+        wrow = r.row(wc)
+        st.pc.append(z3.And(wc >= 0, wc < r.n, wi >= 0, wi < wrow.shape[0], wrow[wi] == m))
+        return m
+    return _old_max_m(e, st, node, recv, axis=axis)
+
+
+_old_hstack = P.fns['np.hstack']
+
+
+@prim('np.hstack')
+def _hstack_r(e, st, node, *xs, axis=None):
+    a = e.deref(st, xs[0])
+    if isinstance(a, RArr) and a.tmpl.ndim == 2:
+        # blocks (r x m_c) side by side: H[r, PS(c) + t] = block_c[r, t];  PS = prefix sums of the block widths (ghost)
+        r = a
+        PS = e.fresh_fn('HPS', [z3.IntSort()], z3.IntSort())
+        H = e.fresh('hstack', e.arr_sort(r.kind, 2))
+        c, t, q = e.L.var('q'), e.L.var('q'), e.L.var('q')
+        blk = r.row(c)
+        st.pc += [PS(0) == 0, z3.ForAll([c], z3.Implies(z3.And(c >= 0, c < r.n), z3.And(PS(c + 1) == PS(c) + blk.shape[1], blk.shape[1] >= 0))),
+                  z3.ForAll([c, q, t], z3.Implies(z3.And(c >= 0, c < r.n, q >= 0, q < blk.shape[0], t >= 0, t < blk.shape[1]),
+                                                  z3.Select(H, q, PS(c) + t) == blk[q, t]))]
+        # trusted facts about a prefix sum of non-negative widths (induction): monotone, and every column lies in one block
+        BLK = e.fresh_fn('HBLK', [z3.IntSort()], z3.IntSort())
+        st.pc += [z3.ForAll([c], z3.Implies(z3.And(c >= 0, c <= r.n), z3.And(PS(c) >= 0, PS(c) <= PS(r.n)))),
+                  z3.ForAll([t], z3.Implies(z3.And(t >= 0, t < PS(r.n)), z3.And(BLK(t) >= 0, BLK(t) < r.n, PS(BLK(t)) <= t, t < PS(BLK(t) + 1))))]
+        rows0 = r.row(z3.IntVal(0)).shape[0]
+        out = Arr(H, (rows0, PS(r.n)), r.kind, meta={'hstack_of': r, 'PS': PS, 'BLK': BLK})
+        return e.new_obj(st, out)
+    return _old_hstack(e, st, node, *xs, axis=axis)
+
+
+@prim('scipy.sparse.coo_matrix', 'coo_matrix')
+def _coo(e, st, node, arg, shape=None, **kw):
+    """coo_matrix((data, coords), shape): entry (i,j) = sum of data[k] over k with coords[0,k]=i, coords[1,k]=j (trusted)"""
+    a = e.deref(st, arg)
+    if not (isinstance(a, Tup) and len(a.items) == 2):
+        raise Unsupported('coo_matrix form')
+    data, coords = e.deref(st, a.items[0]), e.deref(st, a.items[1])
+    shp = e.deref(st, shape)
+    if not (isinstance(coords, Arr) and coords.ndim == 2 and isinstance(shp, Tup)):
+        raise Unsupported('coo_matrix form')
+    e.emit(e.site('shape', node), st, z3.And(coords.shape[0] == 2, data.shape[0] == coords.shape[1]))
+    k = e.L.var('q')
+    e.emit(e.site('coo-coordinates-in-range', node), st,
+           z3.ForAll([k], z3.Implies(z3.And(k >= 0, k < coords.shape[1]),
+                                     z3.And(coords[0, k] >= 0, coords[0, k] < to_z3(shp.items[0]), coords[1, k] >= 0, coords[1, k] < to_z3(shp.items[1])))))
+    return e.new_obj(st, RecV('coo_matrix', {'data': a.items[0], 'coords': a.items[1], 'shape': shape, 'n_rows': to_z3(shp.items[0]), 'n_cols': to_z3(shp.items[1])}))
+
+
+@prim('numbers.Integral')
+def _integral(e, st, node, *a):
+    return Func('numbers.Integral')
